@@ -549,7 +549,7 @@ func init() {
 					cs := map[string]any{"token": t.typ + "/" + t.alg, "variant": v.desc, "accepted_by": accepted[0]}
 					allListed := true
 					for _, f := range c.Enc {
-						if (map[string]bool{"nonminimal": true, "indefinite": true, "permuted": true, "narrowfloat": true, "undefined": true, "outer3": true, "ecdsaflip": true})[f[0]] == false {
+						if (map[string]bool{"nonminimal": true, "indefinite": true, "permuted": true, "narrowfloat": true, "undefined": true, "ecdsaflip": true})[f[0]] == false {
 							allListed = false
 						}
 					}
